@@ -121,7 +121,7 @@ Lemma prefixes_clear_ext isl isl' isf isf' : (forall p, isl p = isl' p) -> (fora
   forall rest acc, prefixes_clear isl isf acc rest = prefixes_clear isl' isf' acc rest.
 Proof.
   intros E F. induction rest as [|x rest IH]; intro acc; simpl; [reflexivity|].
-  destruct rest; [reflexivity|]. now rewrite E, F, IH.
+  destruct rest; [reflexivity|]. now rewrite E, IH.
 Qed.
 
 Lemma benign_ext pre isl isl' isf isf' : (forall p, isl p = isl' p) -> (forall p, isf p = isf' p) ->
